@@ -1,9 +1,10 @@
 (* C10 — shared codecs and schema caches are safe for concurrent use.
    Only statements, closed by [exact lemma], with Print Assumptions beneath. *)
 From Coq Require Import String List NArith Bool.
-From J5V.model Require Import Conc ConcKey ConcSites ConcCorr ConcRace ConcStatement ConcState.
+From J5V.lib Require Import Outcome.
+From J5V.model Require Import Conc ConcKey ConcSites ConcCorr ConcRace ConcStatement ConcState ConcRW ConcHB ConcProbe ConcCodec ConcProperty.
 From J5V.gen Require ConcGen ConcStateGen.
-From J5V.proofs Require Import ConcProofs ConcLeafProofs ConcInvProofs ConcTermProofs ConcMainProofs ConcRetProofs ConcRaceProofs ConcFullProofs ConcKeyProofs.
+From J5V.proofs Require Import ConcProofs ConcLeafProofs ConcInvProofs ConcTermProofs ConcMainProofs ConcRetProofs ConcRaceProofs ConcFullProofs ConcKeyProofs ConcRWProofs ConcHBProofs ConcProbeProofs ConcCodecProofs ConcPropertyProofs.
 Import ListNotations.
 Local Open Scope N_scope.
 
@@ -482,3 +483,157 @@ Example C10_keyed_injective_example :
   results (krun HitCheck (fun n => n + 7) Guarded 3 col_graph col_calls (sched_01 ++ [1; 1]%nat))
     = [[ROk (UNode 9 [UNode 11 []])]; [ROk (UNode 10 [])]].
 Proof. split; [intros a b H; apply (N.add_cancel_r a b 7); exact H|vm_compute; reflexivity]. Qed.
+
+(* ---- no deadlock on the cache's own lock: acquisitions are never nested --------------------- *)
+(* The lock operations of every exported method of *SchemaCache, read off the regenerated token
+   tables (calls into other methods of the table spliced in, deferred unlocks at the end), form a
+   sequence of complete critical sections: the lock is never acquired — for reading or writing —
+   by a call that already holds it.  Today: Schema = [Lock; Unlock]. *)
+Theorem C10_lock_acquisitions_not_nested : lock_programs_flat ConcGen.cache_methods = true.
+Proof. exact code_lock_programs_flat. Qed.
+Print Assumptions C10_lock_acquisitions_not_nested.
+
+(* why that is the condition: over a model of Go's sync.RWMutex (a goroutine blocked in Lock()
+   holds back new readers; sync.Mutex = the write half) goroutines running such programs can
+   always move on while any of them has an operation left — every schedule, any number of
+   goroutines, any mix of read and write sections *)
+Theorem C10_flat_lock_programs_no_deadlock : forall progs sched,
+  forallb flat progs = true -> rw_deadlocked (rw_run progs sched) = false.
+Proof. exact flat_no_deadlock. Qed.
+Print Assumptions C10_flat_lock_programs_no_deadlock.
+
+(* and a nested read acquisition deadlocks: a cache hit served by a fast path `built` (RLock) that
+   calls an accessor `Package` (RLock again), while a miss reaches Lock() in between — after the
+   schedule [0;1;0] no goroutine can ever move again; the token table of that shape is rejected by
+   the check above (the seeded change C10-E; on the real code the goroutine rounds of run_conc
+   report the blocked goroutines with a deadline) *)
+Theorem C10_nested_rlock_deadlock_refuted :
+  rw_deadlocked (rw_run nested_progs [0; 1; 0]%nat) = true /\
+  (forall more, rw_run nested_progs ([0; 1; 0]%nat ++ more) = rw_run nested_progs [0; 1; 0]%nat) /\
+  rw_finished (rw_run nested_progs [0; 0; 0; 0; 1; 1]%nat) = true.
+Proof. exact nested_rlock_deadlocks. Qed.
+Print Assumptions C10_nested_rlock_deadlock_refuted.
+
+Example C10_nested_rlock_table_rejected :
+  lock_programs_flat nested_rlock_table = false /\
+  option_map (fun f => lock_program (lock_fuel ConcGen.cache_methods) ConcGen.cache_methods (snd f))
+             (find_fn ConcGen.cache_methods "Schema") = Some (Some [LLock; LUnlock]).
+Proof. split; [exact (proj2 nested_table_programs)|exact code_schema_program]. Qed.
+
+(* ---- data-race freedom against an explicit happens-before ----------------------------------- *)
+(* ConcHB.hb: the fragment of the Go memory model the modelled sites use, as an inductive relation on
+   trace positions — sequenced-before (program order of one goroutine), synchronized-before for
+   sync.Mutex (an Unlock before every later Lock return), transitive closure.  For all universes, call
+   lists, schedules and package assignments, every pair of conflicting accesses of the guarded machine
+   (maps, registered list, To fields; the callers' lock-free reads of the schema they were handed
+   included) is related by it, and every To field is written once.  PARTIAL as before in one respect
+   only: that these events are the Go code's accesses rests on the token tables, the census and the
+   race-detector runs. *)
+Theorem C10_drf_guarded_partial : C10_drf_statement Guarded.
+Proof. exact guarded_drf. Qed.
+Print Assumptions C10_drf_guarded_partial.
+
+(* hb relates only earlier to later positions (so "concurrent" = not hb i j for i < j) *)
+Theorem C10_hb_respects_trace_order : forall tr i j, hb tr i j -> (i < j)%nat.
+Proof. exact hb_lt. Qed.
+Print Assumptions C10_hb_respects_trace_order.
+
+(* and it is not vacuous: the lock-free trace of the first refutation witness has two conflicting
+   writes of SchemaCache.registered by different goroutines that hb does not relate *)
+Theorem C10_unguarded_not_drf : ~ drf w1_trace.
+Proof. exact unguarded_not_drf. Qed.
+Print Assumptions C10_unguarded_not_drf.
+
+(* ---- the token tables against the MACHINE (not against a typed-in table) --------------------- *)
+(* static_tokens: the regenerated Go tokens of a function, callees of the tables spliced in, deferred
+   unlock at the end.  probe_tokens: a run of the machine of Conc.v on a probe universe — the events of
+   ConcRace.lstep_events / enter_events / fin_events (the functions the race theorems quantify over)
+   rendered as tokens, and the hook reached after every step.  Equal token by token: a changed order
+   of cache operations in the Go source, or a step function / event function of the model that does
+   something else, breaks these.  (C10_cache_methods_agree above compares with a typed-in table and is
+   kept as a change detector for the functions the probes do not run: SchemaSetFromFiles,
+   buildEnumFieldSchema, messageProperties.) *)
+Theorem C10_schema_tokens_are_machine_steps_error_path :
+  (static_tokens ConcGen.cache_methods "Schema"%string ++ ["return"%string])%list = probe_tokens probe_failing 5.
+Proof. exact schema_tokens_error_path. Qed.
+Print Assumptions C10_schema_tokens_are_machine_steps_error_path.
+
+Theorem C10_schema_tokens_are_machine_steps_ok_path :
+  (without ["delete:Schemas"%string] (static_tokens ConcGen.cache_methods "Schema"%string) ++ ["return"%string])%list = probe_tokens probe_leaf 5.
+Proof. exact schema_tokens_ok_path. Qed.
+Print Assumptions C10_schema_tokens_are_machine_steps_ok_path.
+
+(* a field of message type (buildMessageFieldSchema -> newRefPlaceholder -> refTo -> referencePackage,
+   To, ref.linked) = the machine's steps from refto.lookup to ref.linked, up to the position of the two
+   accesses of referencePackage relative to the refto.lookup hook (before it in Go, in the step after it
+   in the machine: no hook separates them from the lookup, one critical section) *)
+Theorem C10_field_tokens_are_machine_steps :
+  without pkg_tokens field_static = without pkg_tokens nested_segment /\
+  filter (fun t => in_strs t pkg_tokens) field_static = pkg_tokens /\
+  filter (fun t => in_strs t pkg_tokens) nested_segment = pkg_tokens.
+Proof. exact refto_tokens. Qed.
+Print Assumptions C10_field_tokens_are_machine_steps.
+
+(* the probes render the event traces of the race theorems *)
+Theorem C10_probe_is_the_event_trace :
+  as_events (probe_tokens probe_leaf 5) = probe_event_tokens probe_leaf 5 /\
+  as_events (probe_tokens probe_failing 5) = probe_event_tokens probe_failing 5 /\
+  as_events (probe_tokens probe_nested 9) = probe_event_tokens probe_nested 9.
+Proof. exact probe_is_the_event_trace. Qed.
+Print Assumptions C10_probe_is_the_event_trace.
+
+(* ---- encode / decode on a shared cache: composed with the sequential codec models -------------- *)
+(* encode_call / decode_call / query_call (ConcCodec.v) = CodecEnc.encode / CodecDec.decode_bytes /
+   CodecDecQuery.decode_query applied to the
+   schema environment reachable from the object the call was handed, in the heap AS IT IS WHEN THE WALK
+   RUNS — any later point of any schedule, other goroutines building or rolling back.  For every
+   universe, call list, schedule, continuation, depth, naming, per-descriptor schema function, message
+   and document: the value is the one the same function yields on the type's own unfolding, which is
+   the schema a call alone on a fresh cache returns (second theorem).  The step from the Go walk to
+   "a function of these cells and the input" is the census (C10_lockfree_functions_write_nothing,
+   C10_codec_walk_reads_frozen) and the oracle. *)
+Theorem C10_codec_calls_return_solo_results : forall nm denote fmt any orc K k g calls sched t n c later,
+  calls_ok calls -> In (t, n, c) (rets Guarded k g calls sched) ->
+  let h := heap (s_sh (run Guarded k g calls (sched ++ later))) in
+  (forall m, encode_call nm denote fmt any K h c n m = encode_solo nm denote fmt any K g n m) /\
+  (forall doc, decode_call nm denote orc K h c n doc = decode_solo nm denote orc K g n doc) /\
+  (forall kvs, query_call nm denote orc K h c n kvs = query_solo nm denote orc K g n kvs).
+Proof. exact codec_calls_are_solo. Qed.
+Print Assumptions C10_codec_calls_return_solo_results.
+
+Theorem C10_solo_schema_is_the_types_unfolding : forall K g n,
+  n <> unsupported -> good g n -> result_solo K g n = ROk (gunfold K g n).
+Proof. exact solo_tree. Qed.
+Print Assumptions C10_solo_schema_is_the_types_unfolding.
+
+(* without the lock the composition gives a different value: on the second refutation witness the encoder
+   model, applied to what thread 1 was handed, panics ("schema/value mismatch": the nested schema is a
+   placeholder) where the call alone returns {"r0":{}} — the nil-dereference panics the lock-free
+   mutations show on the real code *)
+Theorem C10_unguarded_encode_refuted :
+  let st := run Unguarded 3 ex_w2_graph ex_w2_calls ex_w2_sched in
+  rets Unguarded 3 ex_w2_graph ex_w2_calls ex_w2_sched = [(1%nat, 3, 1%nat)] /\
+  encode_call ex_nm ex_denote ex_fmt ex_any 3 (heap (s_sh st)) 1%nat 3 ex_msg = Panic "schema/value mismatch"%string /\
+  encode_solo ex_nm ex_denote ex_fmt ex_any 3 ex_w2_graph 3 ex_msg = Ok [123; 34; 114; 48; 34; 58; 123; 125; 125].
+Proof. exact unguarded_encode_differs. Qed.
+Print Assumptions C10_unguarded_encode_refuted.
+
+Example C10_guarded_encode_example :
+  let sched := [0; 0; 0; 1; 1; 1; 1; 1; 0; 0; 0; 0; 0; 0; 1; 1; 1; 1; 1; 1; 1]%nat in
+  let st := run Guarded 3 ex_w2_graph ex_w2_calls sched in
+  In (1%nat, 3, 2%nat) (rets Guarded 3 ex_w2_graph ex_w2_calls sched) /\
+  encode_call ex_nm ex_denote ex_fmt ex_any 3 (heap (s_sh st)) 2%nat 3 ex_msg = Ok [123; 34; 114; 48; 34; 58; 123; 125; 125].
+Proof. exact guarded_encode_example. Qed.
+
+(* ---- the property as a whole ------------------------------------------------------------------ *)
+(* ConcProperty.C10_property pol d: "each call returns what it returns alone" over EVERY key function (type
+   sets in which two descriptors share a cache key included), the machine-level statement, and DRF against the
+   inductive happens-before.  REFUTED for the code as it is (treatment of a foreign hit and discipline both
+   computed from the regenerated tables), PROVED with the first clause restricted to injective keys. *)
+Theorem C10_full_refuted : ~ C10_property code_hitpol code_disc.
+Proof. exact property_refuted_for_code. Qed.
+Print Assumptions C10_full_refuted.
+
+Theorem C10_full_partial : C10_property_collision_free code_hitpol code_disc.
+Proof. exact property_collision_free_for_code. Qed.
+Print Assumptions C10_full_partial.
